@@ -610,8 +610,10 @@ let arand_body (g : genst) (owned : bool) (s0 : astate) (n : int) (cap : int) =
                 | 0 | 1 -> Printf.sprintf "adv %s %d" (sname k) (rnd (a + 1))
                 | 2 -> Printf.sprintf "goback %s %d" (sname k) (rnd (off + 1))
                 | 3 -> "sync " ^ sname k
+                | 4 when chance 10 -> "drop " ^ sname k      (* a detached async iterator dropped without attach *)
                 | _ -> "attach " ^ sname k)
-             else match rnd 13 with
+             else match rnd 14 with
+               | 13 -> if chance 20 then "drop " ^ sname k else "avail " ^ sname k     (* an async iterator dropped in the middle of the session *)
                | 12 -> "rewrap " ^ sname k       (* into_sync, then from_sync: the same iterator in a fresh wrapper *)
                | 0 -> "avail " ^ sname k
                | 1 -> Printf.sprintf "adv %s %d" (sname k) (rnd (a + 1))
